@@ -2310,47 +2310,45 @@ impl Zeroconf {
 
         let is_ipv4 = sock.domain() == Domain::IPV4;
 
+        // Take back the names this interface announced: conflict resolution may have
+        // renamed the service or its host here.
+        let registry = self.dns_registry_map.get(&intf.index);
+        let resolve = |name: &str| match registry {
+            Some(registry) => registry.resolve_name(name).to_string(),
+            None => name.to_string(),
+        };
+        let fullname = resolve(info.get_fullname());
+        let hostname = resolve(info.get_hostname());
+
         let mut out = DnsOutgoing::new(FLAGS_QR_RESPONSE | FLAGS_AA);
         out.add_answer_at_time(
-            DnsPointer::new(
-                info.get_type(),
-                RRType::PTR,
-                CLASS_IN,
-                0,
-                info.get_fullname().to_string(),
-            ),
+            DnsPointer::new(info.get_type(), RRType::PTR, CLASS_IN, 0, fullname.clone()),
             0,
         );
 
         if let Some(sub) = info.get_subtype() {
             trace!("Adding subdomain {}", sub);
             out.add_answer_at_time(
-                DnsPointer::new(
-                    sub,
-                    RRType::PTR,
-                    CLASS_IN,
-                    0,
-                    info.get_fullname().to_string(),
-                ),
+                DnsPointer::new(sub, RRType::PTR, CLASS_IN, 0, fullname.clone()),
                 0,
             );
         }
 
         out.add_answer_at_time(
             DnsSrv::new(
-                info.get_fullname(),
+                &fullname,
                 CLASS_IN | CLASS_CACHE_FLUSH,
                 0,
                 info.get_priority(),
                 info.get_weight(),
                 info.get_port(),
-                info.get_hostname().to_string(),
+                hostname.clone(),
             ),
             0,
         );
         out.add_answer_at_time(
             DnsTxt::new(
-                info.get_fullname(),
+                &fullname,
                 CLASS_IN | CLASS_CACHE_FLUSH,
                 0,
                 info.generate_txt(),
@@ -2371,7 +2369,7 @@ impl Zeroconf {
         for address in if_addrs {
             out.add_answer_at_time(
                 DnsAddress::new(
-                    info.get_hostname(),
+                    &hostname,
                     ip_address_rr_type(&address),
                     CLASS_IN | CLASS_CACHE_FLUSH,
                     0,
